@@ -93,10 +93,22 @@ theorem u16_toNat (col : UInt16) (i : Int) (h0 : 0 ≤ i) (h : col.toNat + i.toN
 
 /-! ### one line -/
 
-theorem drawLine_cellAt (m : TextMode) (hm : m.hard = false) (maxW row : UInt16) :
+/-- The ellipsis branch is off: soft wrap, or a hard-wrap line for which `truncate` is false. -/
+theorem ell_off (m : TextMode) (tw : Bool)
+    (h : m.hard = false ∨ (tw = false ∧ Gen.SurfaceFacts.EllAtom.lineTooWide ∈ m.ell)) (r nl : Bool) :
+    (m.hard && m.ell.all (evalEll tw r nl)) = false := by
+  rcases h with h | ⟨h1, h2⟩
+  · simp [h]
+  · subst h1
+    have : m.ell.all (evalEll false r nl) = false := by
+      rw [List.all_eq_false]; exact ⟨_, h2, by simp [evalEll]⟩
+    simp [this]
+
+theorem drawLine_cellAt (m : TextMode) (tw : Bool)
+    (hm : m.hard = false ∨ (tw = false ∧ Gen.SurfaceFacts.EllAtom.lineTooWide ∈ m.ell)) (maxW row : UInt16) :
     ∀ (line : List Cell) (col : UInt16) (s : Surface), Sized s →
     (∀ c ∈ line, 0 ≤ c.w) → col.toNat + width line < 65536 →
-    ∃ s', drawLine exact m maxW row line col s = .ok s' ∧ s'.w = s.w ∧ s'.h = s.h ∧ Sized s' ∧
+    ∃ s', drawLine exact m maxW row tw line col s = .ok s' ∧ s'.w = s.w ∧ s'.h = s.h ∧ Sized s' ∧
       ∀ x y, x < s.w.toNat → y < s.h.toNat → cellAt s' x y =
         if y = row.toNat ∧ x < maxW.toNat then over line col.toNat (fun x => cellAt s x y) x
         else cellAt s x y := by
@@ -109,7 +121,7 @@ theorem drawLine_cellAt (m : TextMode) (hm : m.hard = false) (maxW row : UInt16)
     simp [over]
   | cons ch rest ih =>
     intro col s hs hpos hsum
-    simp only [drawLine, hm, Bool.false_and, Bool.false_eq_true, ↓reduceIte]
+    simp only [drawLine, ell_off m tw hm, Bool.false_eq_true, ↓reduceIte]
     by_cases hcol : col ≥ maxW
     · simp only [hcol, ↓reduceIte]
       refine ⟨s, rfl, rfl, rfl, hs, ?_⟩
@@ -146,13 +158,27 @@ theorem drawLine_cellAt (m : TextMode) (hm : m.hard = false) (maxW row : UInt16)
 
 /-! ### all lines -/
 
-theorem drawLines_cellAt (m : TextMode) (hm : m.hard = false) (hd : m.drawStrict = true) (maxW maxH : UInt16) :
+/-- What the column loop does with one whole line: it shows `T line` (the line itself in the soft-wrap
+mode, `hardLine` in the hard-wrap mode) on the columns of the widget. -/
+def LineSpec (m : TextMode) (maxW : UInt16) (T : List Cell → List Cell) : Prop :=
+  ∀ (row : UInt16) (line : List Cell) (s : Surface), Sized s → (∀ c ∈ line, 0 ≤ c.w) → width line < 65536 →
+    ∃ s', drawLine exact m maxW row (tooWide maxW line) line 0 s = .ok s' ∧ s'.w = s.w ∧ s'.h = s.h ∧ Sized s' ∧
+      ∀ x y, x < s.w.toNat → y < s.h.toNat → cellAt s' x y =
+        if y = row.toNat ∧ x < maxW.toNat then over (T line) 0 (fun x => cellAt s x y) x
+        else cellAt s x y
+
+theorem lineSpec_soft (m : TextMode) (hm : m.hard = false) (maxW : UInt16) : LineSpec m maxW id := by
+  intro row line s hs hp hw
+  simpa using drawLine_cellAt m (tooWide maxW line) (.inl hm) maxW row line 0 s hs hp (by simpa using hw)
+
+theorem drawLines_cellAt_gen (m : TextMode) (T : List Cell → List Cell) (hd : m.drawStrict = true) (maxW maxH : UInt16)
+    (hT : LineSpec m maxW T) :
     ∀ (lines : List (List Cell)) (row : UInt16) (s : Surface), Sized s →
     (∀ l ∈ lines, (∀ c ∈ l, 0 ≤ c.w) ∧ width l < 65536) →
     ∃ s', drawLines exact m maxW maxH lines row s = .ok s' ∧ s'.w = s.w ∧ s'.h = s.h ∧ Sized s' ∧
       ∀ x y, x < s.w.toNat → y < s.h.toNat → cellAt s' x y =
         if row.toNat ≤ y ∧ y < row.toNat + lines.length ∧ y < maxH.toNat ∧ x < maxW.toNat
-        then over (lines.getD (y - row.toNat) []) 0 (fun x => cellAt s x y) x
+        then over (T (lines.getD (y - row.toNat) [])) 0 (fun x => cellAt s x y) x
         else cellAt s x y := by
   intro lines
   induction lines with
@@ -178,7 +204,7 @@ theorem drawLines_cellAt (m : TextMode) (hm : m.hard = false) (hd : m.drawStrict
         have := UInt16.not_le.1 hrow; exact UInt16.lt_iff_toNat_lt.1 this
       have hm16 := UInt16.toNat_lt maxH
       have hl := hall l (by simp)
-      obtain ⟨s1, h1, hw1, hh1, hs1, hc1⟩ := drawLine_cellAt m hm maxW row l 0 s hs hl.1 (by simpa using hl.2)
+      obtain ⟨s1, h1, hw1, hh1, hs1, hc1⟩ := hT row l s hs hl.1 hl.2
       simp only [h1]
       have hr1 : (row + 1).toNat = row.toNat + 1 := by
         rw [UInt16.toNat_add, UInt16.toNat_one]; omega
@@ -317,14 +343,15 @@ def blank (fill : Option Nat) : Cell :=
   | some st => { (default : Cell) with st := st }
   | none => default
 
-theorem drawText_cells (m : TextMode) (hm : m.hard = false) (hs : m.sizeStrict = true) (hd : m.drawStrict = true)
-    (c : Ctx) (lines : List (List Cell)) (hall : ∀ l ∈ lines, (∀ c ∈ l, 0 ≤ c.w) ∧ width l < 65536) :
+theorem drawText_cells_gen (m : TextMode) (T : List Cell → List Cell) (c : Ctx) (hT : LineSpec m c.maxW T)
+    (hs : m.sizeStrict = true) (hd : m.drawStrict = true)
+    (lines : List (List Cell)) (hall : ∀ l ∈ lines, (∀ c ∈ l, 0 ≤ c.w) ∧ width l < 65536) :
     ∃ s, drawText exact m c lines = .ok s ∧
       s.w = widthFold c.maxW (lines.take c.maxH.toNat) 0 ∧
       s.h.toNat = min lines.length c.maxH.toNat ∧
       s.buf.length = s.h.toNat * s.w.toNat ∧
       ∀ x y, x < s.w.toNat → y < s.h.toNat →
-        cellAt s x y = over (lines.getD y []) 0 (fun _ => some (blank m.fill)) x := by
+        cellAt s x y = over (T (lines.getD y [])) 0 (fun _ => some (blank m.fill)) x := by
   have hsize1 := sizeLoop_width c.maxW c.maxH lines 0 0 (by rw [UInt16.le_iff_toNat_le]; simp)
   have hsize2 := sizeLoop_height c.maxW c.maxH lines 0 0 (by rw [UInt16.le_iff_toNat_le]; simp)
   have hle := sizeLoop_le c.maxW c.maxH lines 0 0 (by rw [UInt16.le_iff_toNat_le]; simp) (by rw [UInt16.le_iff_toNat_le]; simp)
@@ -358,7 +385,7 @@ theorem drawText_cells (m : TextMode) (hm : m.hard = false) (hs : m.sizeStrict =
       simp only [newSurface, Surface.buf, bufLen, exact, ↓reduceIte, List.getElem?_replicate, hidx x y hx hy,
         Option.map_some]
   obtain ⟨hs0, hw0, hh0, hc0⟩ := hstart _ rfl
-  obtain ⟨s', h', hw', hh', hs', hc'⟩ := drawLines_cellAt m hm hd c.maxW c.maxH lines 0 _ hs0 hall
+  obtain ⟨s', h', hw', hh', hs', hc'⟩ := drawLines_cellAt_gen m T hd c.maxW c.maxH hT lines 0 _ hs0 hall
   refine ⟨s', h', by rw [hw', hw0, hsize1], by rw [hh', hh0, hsize2], ?_, ?_⟩
   · rw [hs']
   · intro x y hx hy
@@ -371,6 +398,26 @@ theorem drawText_cells (m : TextMode) (hm : m.hard = false) (hs : m.sizeStrict =
     rw [if_pos cnd]
     simp only [UInt16.toNat_zero, Nat.sub_zero]
     exact over_congr _ _ _ _ _ (hc0 x y hx hy)
+
+theorem drawLines_cellAt (m : TextMode) (hm : m.hard = false) (hd : m.drawStrict = true) (maxW maxH : UInt16) :
+    ∀ (lines : List (List Cell)) (row : UInt16) (s : Surface), Sized s →
+    (∀ l ∈ lines, (∀ c ∈ l, 0 ≤ c.w) ∧ width l < 65536) →
+    ∃ s', drawLines exact m maxW maxH lines row s = .ok s' ∧ s'.w = s.w ∧ s'.h = s.h ∧ Sized s' ∧
+      ∀ x y, x < s.w.toNat → y < s.h.toNat → cellAt s' x y =
+        if row.toNat ≤ y ∧ y < row.toNat + lines.length ∧ y < maxH.toNat ∧ x < maxW.toNat
+        then over (lines.getD (y - row.toNat) []) 0 (fun x => cellAt s x y) x
+        else cellAt s x y :=
+  drawLines_cellAt_gen m id hd maxW maxH (lineSpec_soft m hm maxW)
+
+theorem drawText_cells (m : TextMode) (hm : m.hard = false) (hs : m.sizeStrict = true) (hd : m.drawStrict = true)
+    (c : Ctx) (lines : List (List Cell)) (hall : ∀ l ∈ lines, (∀ c ∈ l, 0 ≤ c.w) ∧ width l < 65536) :
+    ∃ s, drawText exact m c lines = .ok s ∧
+      s.w = widthFold c.maxW (lines.take c.maxH.toNat) 0 ∧
+      s.h.toNat = min lines.length c.maxH.toNat ∧
+      s.buf.length = s.h.toNat * s.w.toNat ∧
+      ∀ x y, x < s.w.toNat → y < s.h.toNat →
+        cellAt s x y = over (lines.getD y []) 0 (fun _ => some (blank m.fill)) x :=
+  drawText_cells_gen m id c (lineSpec_soft m hm c.maxW) hs hd lines hall
 
 /-! ### the hard-wrap branch (ellipsis) -/
 
@@ -388,10 +435,49 @@ theorem overHard_congr (maxW : Nat) (est : Option Nat) : ∀ (line : List Cell) 
       · simp only [h]
       · apply ih; simp only [h]
 
-theorem drawLine_cellAt_hard (m : TextMode) (hm : m.hard = true) (maxW row : UInt16) :
+/-- The ellipsis branch never writes right of the widget. -/
+theorem overHard_ge (maxW : Nat) (est : Option Nat) : ∀ (line : List Cell) (col : Nat)
+    (f : Nat → Option Cell) (x : Nat), maxW ≤ x → overHard maxW est line col f x = f x := by
+  intro line
+  induction line with
+  | nil => intro col f x _; rfl
+  | cons c cs ih =>
+    intro col f x hx
+    simp only [overHard]
+    split
+    · rfl
+    · have hne : x ≠ col := by omega
+      split
+      · simp [hne]
+      · rw [ih _ _ _ hx]; simp [hne]
+
+/-- The loop of the code on a line = the specification's `truncated` line, on the columns of the widget. -/
+theorem overHard_eq_truncated (maxW : Nat) (est : Option Nat) : ∀ (line : List Cell) (col : Nat)
+    (f : Nat → Option Cell) (x : Nat), x < maxW →
+    overHard maxW est line col f x = over (VaxisModel.Spec.WrapDraw.truncated maxW est line col) col f x := by
+  intro line
+  induction line with
+  | nil => intro col f x _; rfl
+  | cons c cs ih =>
+    intro col f x hx
+    simp only [overHard, VaxisModel.Spec.WrapDraw.truncated]
+    by_cases h1 : col ≥ maxW
+    · have h2 : ¬ (col + c.w.toNat + 1 ≤ maxW) := by omega
+      have hne : x ≠ col := by omega
+      simp [h1, h2, over, hne]
+    · by_cases h3 : col + c.w.toNat ≥ maxW
+      · have h2 : ¬ (col + c.w.toNat + 1 ≤ maxW) := by omega
+        simp only [h1, h3, h2, ↓reduceIte, over, VaxisModel.Spec.WrapDraw.ellipsisFor]
+      · have h2 : col + c.w.toNat + 1 ≤ maxW := by omega
+        simp only [h1, h3, h2, ↓reduceIte, over]
+        exact ih _ _ _ hx
+
+/-- The column loop of the hard-wrap `Draw` on a line for which `truncate` is true. -/
+theorem drawLine_cellAt_hard (m : TextMode) (hm : m.hard = true) (he : m.ell = [.lineTooWide, .reach])
+    (maxW row : UInt16) :
     ∀ (line : List Cell) (col : UInt16) (s : Surface), Sized s →
     (∀ c ∈ line, 0 ≤ c.w) → col.toNat + width line < 65536 →
-    ∃ s', drawLine exact m maxW row line col s = .ok s' ∧ s'.w = s.w ∧ s'.h = s.h ∧ Sized s' ∧
+    ∃ s', drawLine exact m maxW row true line col s = .ok s' ∧ s'.w = s.w ∧ s'.h = s.h ∧ Sized s' ∧
       ∀ x y, x < s.w.toNat → y < s.h.toNat → cellAt s' x y =
         if y = row.toNat then overHard maxW.toNat m.ellipsisStyle line col.toNat (fun x => cellAt s x y) x
         else cellAt s x y := by
@@ -404,7 +490,7 @@ theorem drawLine_cellAt_hard (m : TextMode) (hm : m.hard = true) (maxW row : UIn
     simp [overHard]
   | cons ch rest ih =>
     intro col s hs hpos hsum
-    simp only [drawLine, hm, Bool.true_and]
+    simp only [drawLine, hm, he, Bool.true_and, List.all_cons, List.all_nil, evalEll, Bool.and_true]
     have hw0 : 0 ≤ ch.w := hpos ch (by simp)
     simp only [width, List.map_cons, List.sum_cons] at hsum
     have hcn : (col + u16 ch.w).toNat = col.toNat + ch.w.toNat := u16_toNat col ch.w hw0 (by omega)
@@ -455,65 +541,20 @@ theorem drawLine_cellAt_hard (m : TextMode) (hm : m.hard = true) (maxW row : UIn
           have : ¬ (x = col.toNat ∧ y = row.toNat ∧ x < s.w.toNat ∧ y < s.h.toNat) := fun hh => hy0 hh.2.1
           rw [if_neg this]
 
-theorem drawLines_cellAt_hard (m : TextMode) (hm : m.hard = true) (hd : m.drawStrict = true) (maxW maxH : UInt16) :
-    ∀ (lines : List (List Cell)) (row : UInt16) (s : Surface), Sized s →
-    (∀ l ∈ lines, (∀ c ∈ l, 0 ≤ c.w) ∧ width l < 65536) →
-    ∃ s', drawLines exact m maxW maxH lines row s = .ok s' ∧ s'.w = s.w ∧ s'.h = s.h ∧ Sized s' ∧
-      ∀ x y, x < s.w.toNat → y < s.h.toNat → cellAt s' x y =
-        if row.toNat ≤ y ∧ y < row.toNat + lines.length ∧ y < maxH.toNat
-        then overHard maxW.toNat m.ellipsisStyle (lines.getD (y - row.toNat) []) 0 (fun x => cellAt s x y) x
-        else cellAt s x y := by
-  intro lines
-  induction lines with
-  | nil =>
-    intro row s hs _
-    refine ⟨s, rfl, rfl, rfl, hs, ?_⟩
-    intro x y _ _
-    have : ¬ (row.toNat ≤ y ∧ y < row.toNat + ([] : List (List Cell)).length ∧ y < maxH.toNat) := by
-      simp only [List.length_nil]; omega
-    rw [if_neg this]
-  | cons l ls ih =>
-    intro row s hs hall
-    simp only [drawLines, hGuard, hd, ↓reduceIte]
-    by_cases hrow : row ≥ maxH
-    · simp only [hrow, decide_true, ↓reduceIte]
-      refine ⟨s, rfl, rfl, rfl, hs, ?_⟩
-      intro x y _ _
-      have hrow' := UInt16.le_iff_toNat_le.1 hrow
-      have : ¬ (row.toNat ≤ y ∧ y < row.toNat + (l :: ls).length ∧ y < maxH.toNat) := by omega
-      rw [if_neg this]
-    · simp only [hrow, decide_false, Bool.false_eq_true, ↓reduceIte]
-      have hrow' : row.toNat < maxH.toNat := by
-        have := UInt16.not_le.1 hrow; exact UInt16.lt_iff_toNat_lt.1 this
-      have hm16 := UInt16.toNat_lt maxH
-      have hl := hall l (by simp)
-      obtain ⟨s1, h1, hw1, hh1, hs1, hc1⟩ := drawLine_cellAt_hard m hm maxW row l 0 s hs hl.1 (by simpa using hl.2)
-      simp only [h1]
-      have hr1 : (row + 1).toNat = row.toNat + 1 := by
-        rw [UInt16.toNat_add, UInt16.toNat_one]; omega
-      obtain ⟨s2, h2, hw2, hh2, hs2, hc2⟩ := ih (row + 1) s1 hs1 (fun l' hl' => hall l' (by simp [hl']))
-      refine ⟨s2, h2, hw2.trans hw1, hh2.trans hh1, hs2, ?_⟩
-      intro x y hx hy
-      rw [hc2 x y (by rw [hw1]; exact hx) (by rw [hh1]; exact hy), hr1]
-      simp only [List.length_cons]
-      by_cases hy0 : y = row.toNat
-      · have c1 : ¬ (row.toNat + 1 ≤ y ∧ y < row.toNat + 1 + ls.length ∧ y < maxH.toNat) := by omega
-        have c2 : row.toNat ≤ y ∧ y < row.toNat + (ls.length + 1) ∧ y < maxH.toNat := by omega
-        rw [if_neg c1, hc1 x y hx hy, if_pos c2, if_pos hy0]
-        have : y - row.toNat = 0 := by omega
-        simp [this]
-      · have hs1y : ∀ x', x' < s.w.toNat → cellAt s1 x' y = cellAt s x' y := by
-          intro x' hx'
-          rw [hc1 x' y hx' hy, if_neg hy0]
-        by_cases c1 : row.toNat + 1 ≤ y ∧ y < row.toNat + 1 + ls.length ∧ y < maxH.toNat
-        · have c2 : row.toNat ≤ y ∧ y < row.toNat + (ls.length + 1) ∧ y < maxH.toNat := by omega
-          rw [if_pos c1, if_pos c2]
-          have : y - row.toNat = (y - (row.toNat + 1)) + 1 := by omega
-          rw [this, List.getD_cons_succ]
-          exact overHard_congr _ _ _ _ _ _ _ (hs1y x hx)
-        · have c2 : ¬ (row.toNat ≤ y ∧ y < row.toNat + (ls.length + 1) ∧ y < maxH.toNat) := by omega
-          rw [if_neg c1, if_neg c2]
-          exact hs1y x hx
+/-- `lineWidth` as Go sums it (int) is the display width when no width is negative. -/
+theorem lineWidthInt_eq : ∀ (l : List Cell), (∀ c ∈ l, 0 ≤ c.w) → lineWidthInt l = (width l : Int)
+  | [], _ => rfl
+  | c :: cs, h => by
+    have ih := lineWidthInt_eq cs (fun c' hc' => h c' (by simp [hc']))
+    have h0 := h c (by simp)
+    simp only [lineWidthInt, ih, width, List.map_cons, List.sum_cons]
+    omega
+
+/-- `truncate` = "the line does not fit". -/
+theorem tooWide_eq (maxW : UInt16) (l : List Cell) (h : ∀ c ∈ l, 0 ≤ c.w) :
+    tooWide maxW l = decide (width l > maxW.toNat) := by
+  simp only [tooWide, lineWidthInt_eq l h, decide_eq_decide, Int.ofNat_eq_coe]
+  constructor <;> intro h <;> omega
 
 /-- A line narrower than `Max.Width` is drawn without ellipsis, exactly as in the soft-wrap mode. -/
 theorem overHard_fits (maxW : Nat) (est : Option Nat) : ∀ (line : List Cell) (col : Nat) (f : Nat → Option Cell),
@@ -529,61 +570,45 @@ theorem overHard_fits (maxW : Nat) (est : Option Nat) : ∀ (line : List Cell) (
     simp only [overHard, over, h1, h2, ↓reduceIte]
     exact ih _ _ (by simp only [width]; omega)
 
+/-- **One line of the hard-wrap `Draw`** (the column loop with `truncate` as the code computes it):
+the row shows `Spec.WrapDraw.hardLine` — the line as it is when it fits, else its longest prefix
+that leaves room for the ellipsis, then the ellipsis. -/
+theorem lineSpec_hard (m : TextMode) (hm : m.hard = true) (he : m.ell = [.lineTooWide, .reach]) (maxW : UInt16) :
+    LineSpec m maxW (VaxisModel.Spec.WrapDraw.hardLine maxW.toNat m.ellipsisStyle) := by
+  intro row line s hs hp hw
+  have htw := tooWide_eq maxW line hp
+  by_cases hfit : width line ≤ maxW.toNat
+  · have h0 : tooWide maxW line = false := by rw [htw]; simp; omega
+    rw [h0]
+    have := drawLine_cellAt m false (.inr ⟨rfl, by rw [he]; simp⟩) maxW row line 0 s hs hp (by simpa using hw)
+    simpa [VaxisModel.Spec.WrapDraw.hardLine, hfit] using this
+  · have h1 : tooWide maxW line = true := by rw [htw]; simp; omega
+    rw [h1]
+    obtain ⟨s', e, hw', hh', hs', hc⟩ := drawLine_cellAt_hard m hm he maxW row line 0 s hs hp (by simpa using hw)
+    refine ⟨s', e, hw', hh', hs', ?_⟩
+    intro x y hx hy
+    rw [hc x y hx hy]
+    by_cases hy0 : y = row.toNat
+    · by_cases hxm : x < maxW.toNat
+      · rw [if_pos hy0, if_pos ⟨hy0, hxm⟩]
+        simp only [VaxisModel.Spec.WrapDraw.hardLine, hfit, ↓reduceIte, UInt16.toNat_zero]
+        exact overHard_eq_truncated _ _ _ _ _ _ hxm
+      · rw [if_pos hy0, if_neg (fun h => hxm h.2)]
+        exact overHard_ge _ _ _ _ _ _ (by omega)
+    · rw [if_neg hy0, if_neg (fun h => hy0 h.1)]
+
 /-- `drawText` in the hard-wrap mode, cell by cell. -/
-theorem drawText_cells_hard (m : TextMode) (hm : m.hard = true) (hs : m.sizeStrict = true) (hd : m.drawStrict = true)
+theorem drawText_cells_hard (m : TextMode) (hm : m.hard = true) (he : m.ell = [.lineTooWide, .reach])
+    (hs : m.sizeStrict = true) (hd : m.drawStrict = true)
     (c : Ctx) (lines : List (List Cell)) (hall : ∀ l ∈ lines, (∀ c ∈ l, 0 ≤ c.w) ∧ width l < 65536) :
     ∃ s, drawText exact m c lines = .ok s ∧
       s.w = widthFold c.maxW (lines.take c.maxH.toNat) 0 ∧
       s.h.toNat = min lines.length c.maxH.toNat ∧
       s.buf.length = s.h.toNat * s.w.toNat ∧
       ∀ x y, x < s.w.toNat → y < s.h.toNat →
-        cellAt s x y = overHard c.maxW.toNat m.ellipsisStyle (lines.getD y []) 0 (fun _ => some (blank m.fill)) x := by
-  have hsize1 := sizeLoop_width c.maxW c.maxH lines 0 0 (by rw [UInt16.le_iff_toNat_le]; simp)
-  have hsize2 := sizeLoop_height c.maxW c.maxH lines 0 0 (by rw [UInt16.le_iff_toNat_le]; simp)
-  have hle := sizeLoop_le c.maxW c.maxH lines 0 0 (by rw [UInt16.le_iff_toNat_le]; simp) (by rw [UInt16.le_iff_toNat_le]; simp)
-  simp only [UInt16.toNat_zero, Nat.zero_add, Nat.sub_zero] at hsize1 hsize2
-  simp only [drawText, findContainerSize, hs]
-  generalize hW : (sizeLoop true c.maxW c.maxH lines 0 0).1 = W at hsize1 hle
-  generalize hH : (sizeLoop true c.maxW c.maxH lines 0 0).2 = H at hsize2 hle
-  have h0 := newSurface_sized W H
-  have d0 := newSurface_dims exact W H
-  -- the start surface, cell by cell
-  have hstart : ∀ (s0 : Surface), s0 = (match m.fill with | some st => fillStyle (newSurface exact W H) st | none => newSurface exact W H) →
-      Sized s0 ∧ s0.w = W ∧ s0.h = H ∧ ∀ x y, x < W.toNat → y < H.toNat → cellAt s0 x y = some (blank m.fill) := by
-    intro s0 he
-    have hidx : ∀ x y, x < W.toNat → y < H.toNat → y * W.toNat + x < H.toNat * W.toNat :=
-      fun x y hx hy => index_lt _ _ _ _ hx hy
-    cases hf : m.fill with
-    | none =>
-      rw [hf] at he; simp only at he; subst he
-      refine ⟨h0, d0.1, d0.2.1, ?_⟩
-      intro x y hx hy
-      simp only [cellAt, d0.1, d0.2.1, hx, hy, and_self, ↓reduceIte, blank]
-      simp only [newSurface, Surface.buf, bufLen, exact, ↓reduceIte, List.getElem?_replicate, hidx x y hx hy]
-    | some st =>
-      rw [hf] at he; simp only at he; subst he
-      have f := fillStyle_props (newSurface exact W H) st h0
-      refine ⟨f.2.2.2, f.1.trans d0.1, f.2.1.trans d0.2.1, ?_⟩
-      intro x y hx hy
-      simp only [cellAt, f.1, f.2.1, d0.1, d0.2.1, hx, hy, and_self, ↓reduceIte, blank]
-      have d := setBuf_dims (newSurface exact W H) ((newSurface exact W H).buf.map fun c => { c with st := st })
-      simp only [fillStyle, d.2.2.2, List.getElem?_map]
-      simp only [newSurface, Surface.buf, bufLen, exact, ↓reduceIte, List.getElem?_replicate, hidx x y hx hy,
-        Option.map_some]
-  obtain ⟨hs0, hw0, hh0, hc0⟩ := hstart _ rfl
-  obtain ⟨s', h', hw', hh', hs', hc'⟩ := drawLines_cellAt_hard m hm hd c.maxW c.maxH lines 0 _ hs0 hall
-  refine ⟨s', h', by rw [hw', hw0, hsize1], by rw [hh', hh0, hsize2], ?_, ?_⟩
-  · rw [hs']
-  · intro x y hx hy
-    rw [hw', hw0] at hx
-    rw [hh', hh0] at hy
-    rw [hc' x y (by rw [hw0]; exact hx) (by rw [hh0]; exact hy)]
-    have hWle := UInt16.le_iff_toNat_le.1 hle.1
-    have cnd : (0 : UInt16).toNat ≤ y ∧ y < (0 : UInt16).toNat + lines.length ∧ y < c.maxH.toNat := by
-      simp only [UInt16.toNat_zero]; omega
-    rw [if_pos cnd]
-    simp only [UInt16.toNat_zero, Nat.sub_zero]
-    exact overHard_congr _ _ _ _ _ _ _ (hc0 x y hx hy)
+        cellAt s x y = over (VaxisModel.Spec.WrapDraw.hardLine c.maxW.toNat m.ellipsisStyle (lines.getD y [])) 0
+          (fun _ => some (blank m.fill)) x :=
+  drawText_cells_gen m _ c (lineSpec_hard m hm he c.maxW) hs hd lines hall
 
 
 /-! ### what `over` shows -/
